@@ -12,7 +12,6 @@ import (
 	"encoding/json"
 	"fmt"
 	"math/rand"
-	"os"
 	"strings"
 	"testing"
 	"time"
@@ -313,7 +312,7 @@ func (n *c18Net) deepIndex() string {
 // record addresses of every record named in any of the genesis values, the holders of the scope
 // coins (the exported scopes carry them; the bank genesis holds the coins).
 func c18DeepTables(cdc codec.Codec, st map[string]json.RawMessage, holds hold.GenesisState, base c18Deep, gs ...c18Deep) string {
-	var held, pre, recs, vo []string
+	var held, pre, nums, recs, vo []string
 	for _, h := range holds.Holds {
 		for _, c := range h.Amount {
 			held = append(held, fmt.Sprintf("(%s, %s, %s)", hx(c18Addr(h.Address)), hxs(c.Denom), zInt(c.Amount)))
@@ -327,9 +326,7 @@ func c18DeepTables(cdc codec.Codec, st map[string]json.RawMessage, holds hold.Ge
 				if a.GetAccountNumber() >= nextAcc {
 					nextAcc = a.GetAccountNumber() + 1
 				}
-				if os.Getenv("VERIF_C18_DEBUG") == "2" {
-					fmt.Printf("ACCOUNT %T %d\n", a, a.GetAccountNumber())
-				}
+				nums = append(nums, fmt.Sprintf("(%s, %s)", hx(a.GetAddress()), c18N(a.GetAccountNumber())))
 				if m, ok := a.(*markertypes.MarkerAccount); ok {
 					pre = append(pre, c18MarkerTerm(*m))
 				}
@@ -355,8 +352,8 @@ func c18DeepTables(cdc codec.Codec, st map[string]json.RawMessage, holds hold.Ge
 			vo = append(vo, fmt.Sprintf("(%s, %s)", hx(s.ScopeId.Bytes()), hx(a)))
 		}
 	}
-	return fmt.Sprintf("{| dt_held := %s; dt_pre_markers := %s; dt_next_acc := %s; dt_rec_addrs := %s; dt_vo0 := %s; dt_blocked := [] |}",
-		coqList(held), coqList(pre), c18N(nextAcc), coqList(recs), coqList(vo))
+	return fmt.Sprintf("{| dt_held := %s; dt_pre_markers := %s; dt_accnums := %s; dt_next_acc := %s; dt_rec_addrs := %s; dt_vo0 := %s; dt_blocked := [] |}",
+		coqList(held), coqList(pre), coqList(nums), c18N(nextAcc), coqList(recs), coqList(vo))
 }
 
 // ---------- perturbed genesis of the three modules ----------
